@@ -85,7 +85,14 @@ def unwrap_chain(ex, e):
             e = v.wraps
         else:
             h = getattr(v, 'go_unwrap', None)
-            e = h(ex) if h else None
+            if h:
+                e = h(ex)
+            elif isinstance(e, Iface) and 'Unwrap' in (ex.prog.msets.get(e.t) or {}):
+                e = ex.call_named(ex.prog.msets[e.t]['Unwrap'], [e.v])
+                if isinstance(e, Slice):
+                    e = None
+            else:
+                e = None
 
 
 @intr('errors.Is')
@@ -424,15 +431,19 @@ def uuid_parse_fn():
 
 @intr('(github.com/google/uuid.UUID).String')
 def uuid_string(ex, args, name):
-    u = args[0]
-    s = uuid_str_fn()(zint(u))
-    # parse is the inverse of String on valid uuids
-    ex.assume(uuid_parse_fn()(s) == zint(u))
-    return s
+    return UUIDStr(args[0])
 
 
 @intr('github.com/google/uuid.Parse')
 def uuid_parse(ex, args, name):
+    if isinstance(args[0], UUIDStr):
+        return (args[0].v, None)
+    if isinstance(args[0], str):
+        import uuid as _u
+        try:
+            return (_u.UUID(args[0]).int, None)
+        except Exception:
+            return (0, mkerr('uuid.Parse', 'invalid UUID'))
     s = zstr(args[0])
     v = uuid_parse_fn()(s)
     # uuid_parse(s) == -1 encodes "not a uuid"
@@ -561,3 +572,23 @@ def crc32_new(ex, args, name):
 def math_pow(ex, args, name):
     from . import fpmodel
     return fpmodel.go_pow(ex, args[0], args[1])
+
+
+@intr('(time.Duration).Nanoseconds')
+def dur_ns(ex, args, name):
+    return args[0]
+
+
+@intr('(time.Duration).Milliseconds')
+def dur_ms(ex, args, name):
+    return ex.binop('/', args[0], 10**6, 'int64', 'int64')
+
+
+@intr('(time.Duration).Microseconds')
+def dur_us(ex, args, name):
+    return ex.binop('/', args[0], 10**3, 'int64', 'int64')
+
+
+@intr('(time.Duration).String')
+def dur_string(ex, args, name):
+    return z3.Function('duration_string', z3.IntSort(), z3.StringSort())(zint(args[0]))
